@@ -1,5 +1,174 @@
 package main
 
+import (
+	"encoding/json"
+	"fmt"
+	"os"
+	"os/exec"
+	"path/filepath"
+	"sort"
+	"sync"
+
+	"verif/checker/load"
+	"verif/checker/report"
+)
+
 func extraCommand(name string, args []string) (int, bool) {
 	return 0, false
+}
+
+type expectEntry struct {
+	Class    string   `json:"class"`
+	Property string   `json:"property"`
+	Patch    string   `json:"patch"`
+	Fires    []string `json:"fires"`
+}
+
+type corpusResult struct {
+	Applied     int      `json:"mutants_applied"`
+	Detected    int      `json:"mutants_detected"`
+	Skipped     []string `json:"mutants_skipped"`
+	Weak        []string `json:"undetected_but_expected"`
+	BenignRun   int      `json:"benign_applied"`
+	FalseAlarms []string `json:"benign_false_alarms"`
+	Samples     []string `json:"samples"`
+}
+
+// corpusSelfTest (thorough tier): every corpus change this property's check is
+// recorded to catch must still be caught, and no benign edit may be reported.
+// Each patch is applied to a scratch copy of /repo's current tree outside /repo
+// and /verif, analysed in a fresh process, and removed at once.
+func corpusSelfTest(id string) *corpusResult {
+	dir := report.VerifDir()
+	b, err := os.ReadFile(filepath.Join(dir, "mutants", "expect.json"))
+	if err != nil {
+		return nil
+	}
+	var exp map[string]expectEntry
+	if json.Unmarshal(b, &exp) != nil {
+		return nil
+	}
+	exe, err := os.Executable()
+	if err != nil {
+		return nil
+	}
+	var ids []string
+	for mid, e := range exp {
+		relevant := e.Class == "benign"
+		for _, f := range e.Fires {
+			if f == id {
+				relevant = true
+			}
+		}
+		if relevant {
+			ids = append(ids, mid)
+		}
+	}
+	sort.Strings(ids)
+	res := &corpusResult{}
+	var mu sync.Mutex
+	sem := make(chan struct{}, 8)
+	var wg sync.WaitGroup
+	for _, mid := range ids {
+		wg.Add(1)
+		go func(mid string) {
+			defer wg.Done()
+			sem <- struct{}{}
+			defer func() { <-sem }()
+			e := exp[mid]
+			tmp, err := os.MkdirTemp("", "verif-corpus-")
+			if err != nil {
+				return
+			}
+			defer os.RemoveAll(tmp)
+			dst := filepath.Join(tmp, "repo")
+			if out, err := exec.Command("cp", "-r", load.RepoDir(), dst).CombinedOutput(); err != nil {
+				mu.Lock()
+				res.Skipped = append(res.Skipped, mid+": copy failed: "+string(out))
+				mu.Unlock()
+				return
+			}
+			os.RemoveAll(filepath.Join(dst, ".git"))
+			ap := exec.Command("git", "apply", "--whitespace=nowarn", filepath.Join(dir, e.Patch))
+			ap.Dir = dst
+			if out, err := ap.CombinedOutput(); err != nil {
+				mu.Lock()
+				res.Skipped = append(res.Skipped, mid+": no longer applies to the current tree ("+firstLine(string(out))+")")
+				mu.Unlock()
+				return
+			}
+			for _, f := range []string{"known_findings.json", "properties.jsonl"} {
+				if data, err := os.ReadFile(filepath.Join(dir, f)); err == nil {
+					os.WriteFile(filepath.Join(tmp, f), data, 0o644)
+				}
+			}
+			cmd := exec.Command(exe, "check", id, "--tier", "quick", "--no-evidence")
+			cmd.Env = append(os.Environ(), "VERIF_REPO="+dst, "VERIF_DIR="+tmp)
+			out, _ := cmd.CombinedOutput()
+			fired := cmd.ProcessState != nil && cmd.ProcessState.ExitCode() != 0
+			mu.Lock()
+			defer mu.Unlock()
+			if e.Class == "benign" {
+				res.BenignRun++
+				if fired {
+					res.FalseAlarms = append(res.FalseAlarms, mid+": "+firstFail(string(out)))
+				}
+				return
+			}
+			res.Applied++
+			if fired {
+				res.Detected++
+				if len(res.Samples) < 6 {
+					res.Samples = append(res.Samples, mid+" → "+firstFail(string(out)))
+				}
+			} else {
+				res.Weak = append(res.Weak, mid)
+			}
+		}(mid)
+	}
+	wg.Wait()
+	sort.Strings(res.Skipped)
+	sort.Strings(res.Weak)
+	sort.Strings(res.FalseAlarms)
+	sort.Strings(res.Samples)
+	return res
+}
+
+func firstLine(s string) string {
+	for i, c := range s {
+		if c == '\n' {
+			return s[:i]
+		}
+	}
+	return s
+}
+
+func firstFail(out string) string {
+	start := 0
+	for i := 0; i <= len(out); i++ {
+		if i == len(out) || out[i] == '\n' {
+			line := out[start:i]
+			if len(line) > 5 && line[:5] == "FAIL " {
+				if len(line) > 220 {
+					line = line[:220] + "…"
+				}
+				return line
+			}
+			start = i + 1
+		}
+	}
+	return "(exit 1)"
+}
+
+func printCorpus(id string, r *corpusResult) {
+	if r == nil {
+		return
+	}
+	fmt.Printf("   corpus self-test: %d recorded changes applied, %d detected, %d skipped; %d benign edits applied, %d reported\n", r.Applied, r.Detected, len(r.Skipped), r.BenignRun, len(r.FalseAlarms))
+	for _, w := range r.Weak {
+		fmt.Printf("CHECKER-WEAKNESS property=%s %s is recorded as caught by this check but was not\n", id, w)
+	}
+	for _, f := range r.FalseAlarms {
+		fmt.Printf("CHECKER-FALSE-ALARM property=%s %s\n", id, f)
+	}
 }
